@@ -50,6 +50,11 @@ struct Translator {
   std::vector<const GlobalVariable*> reachGOrder;
   std::set<std::string> externsUsed;
   std::vector<std::string> spinNotes;
+  std::set<const MDNode*> storedTypes;
+  std::set<Type*> storedAtomicTypes;
+  bool storedTypesKnown = false, storedUnknown = false;
+  unsigned readOnlyLoads = 0;
+  void computeStoredTypes();
   bool usesUnwind = false; // module calls longjmp: model setjmp/longjmp by return propagation
   std::set<std::string> ghostPrefixes{"vfg_"};
 
